@@ -96,6 +96,8 @@ fn seq_spec(ctx: &Ctx, shards: usize, w: i64) -> SeqSpec {
         alphabet.push(Op::Delete { k });
     }
     alphabet.push(Op::Upsert { k: 1, value: true, w: Some(30), ttl_ms: Some(500), remove_ttl: false });
+    alphabet.push(Op::Upsert { k: 1, value: true, w: Some(30), ttl_ms: None, remove_ttl: true });
+    alphabet.push(Op::Upsert { k: 2, value: true, w: None, ttl_ms: None, remove_ttl: true });
     // under the small cache weight this one evicts
     alphabet.push(Op::Put { k: 3, w: Some(60), ttl_ms: Some(1000) });
     alphabet.push(Op::Advance { ms: 1000 });
